@@ -10,7 +10,7 @@ RELAX = ['rate', 'level_lo', 'level_hi', 'end_level', 'simult', 'hold', 'outside
 def families(tier):
     th = tier == 'thorough'
     fs = [('storage', fam.fam_storage(thorough=th)), ('storage_mip', fam.fam_storage_mip(thorough=th)),
-          ('storage_hold', fam.fam_storage_hold_T()), ('storage_hold_start', fam.fam_storage_hold_start()), ('storage_hold_dst', fam.fam_storage_hold_dst()), ('storage_blocks', fam.fam_storage_blocks(thorough=th, inflow=(0, 1)))]
+          ('storage_hold', fam.fam_storage_hold_T()), ('storage_hold_start', fam.fam_storage_hold_start()), ('storage_hold_dst', fam.fam_storage_hold_dst()), ('storage_burn', fam.fam_storage_burn()), ('storage_blocks', fam.fam_storage_blocks(thorough=th, inflow=(0, 1)))]
     # storages with a coarser frequency of their own (one and two variables per step), incl. windows reaching beyond the horizon so that the
     # first / last coarse step is cut by the horizon: level bounds, end level and the reported series on the fine grid
     fs.append(('storage_coarse', fam.renumber([c for c in fam.fam_coarse(thorough=th) if str(c.get('variant', '')).startswith('storage')])))
